@@ -82,6 +82,19 @@ Theorem C11_stray_tail_not_found :
 Proof. exact stray_tail_not_found. Qed.
 Print Assumptions C11_stray_tail_not_found.
 
+(* 7. what one step of the navigation selects: an unqualified step means the FIRST instance; a qualifier
+      on a single (non-MULTI) section selects nothing; whatever is selected is an existing instance
+      (an index out of range or an unknown title selects nothing) *)
+Theorem C11_step_selection :
+  forall (o : opt),
+  (forall v vs, o_vals o = v :: vs -> select o None = Some 0) /\
+  (forall t, oflag o CFGF_MULTI = false -> select o (Some t) = None) /\
+  (forall q v, select o q = Some v -> v < length (o_vals o)).
+Proof.
+  intro o. split; [exact (select_first o) | split; [exact (select_single_qualified o) | exact (select_in_range o)]].
+Qed.
+Print Assumptions C11_step_selection.
+
 Example C11_stray_heads : is_bar_eq x7c = true /\ is_bar_eq x3d = true /\ is_bar_eq x61 = false /\ is_bar x7c = true.
 Proof. vm_compute. repeat split. Qed.
 
